@@ -704,3 +704,133 @@ func ruleBoundFromTokens(c *Ctx) {
 		c.note("-", "no parameter map is filled in a function that takes the URL path", "-", "nothing to decide")
 	}
 }
+
+// ---------------------------------------------------------------------------
+// C04.i: the literal text around a variable inside one segment (`{name}.js`, `v{major}`) is cut off by position - the
+// template says how long it is. A binder that *searches* the request token for the literal text takes the first
+// place it occurs as the end of the value (`app.json.js` against `{name}.js` binds `app`), or the last one as its
+// start. On the request path: the result of strings.Index(token, x) is not the high bound, and the result of
+// strings.LastIndex(token, x) not the low bound, of a slice of that same request token that ends up in a parameter map.
+func ruleAffixByPosition(c *Ctx) {
+	p := c.P
+	roles := p.Roles()
+	up := urlPathParams(p, false)
+	n := 0
+	// request tokens: elements of what a call returned for the URL path (the tokenizer), and slices of them
+	var isToken func(v ssa.Value, d int) bool
+	isToken = func(v ssa.Value, d int) bool {
+		v = strip(v)
+		if d > 5 || v == nil {
+			return false
+		}
+		switch x := v.(type) {
+		case *ssa.Slice:
+			return isToken(x.X, d+1)
+		case *ssa.Phi:
+			for _, e := range x.Edges {
+				if isToken(e, d+1) {
+					return true
+				}
+			}
+		case *ssa.UnOp:
+			if x.Op != token.MUL {
+				return false
+			}
+			if ia, ok := x.X.(*ssa.IndexAddr); ok {
+				for _, src := range p.sources(ia.X, provDefault) {
+					if call, ok := src.(*ssa.Call); ok {
+						for _, a := range call.Call.Args {
+							if isStringType(a.Type()) && up.derives(p, a, map[ssa.Value]bool{}) {
+								return true
+							}
+						}
+					}
+				}
+			}
+			for _, a := range p.loadOfCell(x) {
+				for _, st := range p.cellStores(a) {
+					if isToken(st.Val, d+1) {
+						return true
+					}
+				}
+			}
+		case *ssa.Call:
+			if cal := x.Call.StaticCallee(); cal != nil && p.inModule(cal) && len(x.Call.Args) > 0 && isStringType(x.Type()) {
+				// a module string->string helper applied to a token (removeCustomVerb)
+				for _, a := range x.Call.Args {
+					if isStringType(a.Type()) && isToken(a, d+1) {
+						return true
+					}
+				}
+			}
+		}
+		return false
+	}
+	for _, fn := range p.SrcFunc {
+		if !p.inModule(fn) || fn.Blocks == nil || !roles.RequestPath[fn] {
+			continue
+		}
+		takesPath := false
+		for _, prm := range fn.Params {
+			if up.param[prm] {
+				takesPath = true
+			}
+		}
+		if !takesPath {
+			continue
+		}
+		name := p.fname(fn)
+		eachInstr(fn, func(i ssa.Instruction) {
+			call, ok := i.(*ssa.Call)
+			if !ok {
+				return
+			}
+			cn := calleeName(&call.Call)
+			if cn != "strings.Index" && cn != "strings.LastIndex" {
+				return
+			}
+			hay := call.Call.Args[0]
+			if !isToken(hay, 0) {
+				return
+			}
+			if k, isC := constStr(call.Call.Args[1]); isC && len(k) == 1 {
+				return // a single delimiter character ("{", ":"): the grammar of the token, not a literal of the template
+			}
+			// bounds of slices of the same token
+			var visit func(v ssa.Value, d int)
+			bad := ""
+			visit = func(v ssa.Value, d int) {
+				if d > 3 {
+					return
+				}
+				for _, r := range referrers(v) {
+					switch y := r.(type) {
+					case *ssa.Slice:
+						if !isToken(y.X, 0) {
+							continue
+						}
+						if cn == "strings.Index" && y.High == v {
+							bad = "the first occurrence of " + operandDesc(call.Call.Args[1]) + " is taken for the end of the value (" + p.ipos(y) + ")"
+						}
+						if cn == "strings.LastIndex" && y.Low == v {
+							bad = "the last occurrence of " + operandDesc(call.Call.Args[1]) + " is taken for the start of the value (" + p.ipos(y) + ")"
+						}
+					case *ssa.Phi:
+						visit(y, d+1)
+					case *ssa.BinOp:
+						if y.Op == token.ADD || y.Op == token.SUB {
+							visit(y, d+1)
+						}
+					}
+				}
+			}
+			visit(call, 0)
+			n++
+			c.check(bad == "", name, "a literal around a variable is cut off by position, not by search", p.ipos(call), "the search result is not a bound of a slice of the request token",
+				bad+": for a value that contains the literal text once more the bound parameter is shorter (longer) than the text the template variable stands for")
+		})
+	}
+	if n == 0 {
+		c.note("-", "no request token is searched for text", "-", "nothing to decide")
+	}
+}
